@@ -4,7 +4,9 @@ import ast, builtins, collections, copy, operator, typing, itertools
 import z3
 from . import api
 from .core import simp, Unsupported, PathEnd, PyRaise
-from .zsorts import VStruct, VOpt, VBox, VObj, VAbs
+from .zsorts import VStruct, VOpt, VBox, VObj, VAbs, VMatch
+from . import regex as rx
+import re as _re
 from .interp import Frame, Closure, BoundMethod, Builtin, is_sym, contains_sym
 from .exprs import PyList, PyDict, LazyGen
 from .stmts import IterView, ExcVal
@@ -60,7 +62,12 @@ class MethodMixin:
         reg(sum, self.b_sum)
         import os.path
         reg(os.path.isabs, lambda a, k, n, f: os.path.isabs(a[0]) if not is_sym(a[0]) else self.ufun('py_isabs', STR, z3.BoolSort())(a[0]))
+        for nm in ('match', 'fullmatch', 'search'):
+            reg(getattr(_re, nm), lambda a, k, n, f, nm=nm: self.m_pattern(a[0] if isinstance(a[0], _re.Pattern) else _re.compile(a[0], *a[2:]), nm, [a[1]], n) if is_sym(a[1]) else getattr(_re, nm)(*a))
         reg(api.unit, lambda a, k, n, f: (a[0],))
+        names_ = self.contract_names_for(None, None)
+        for nm_ in ('re_match', 're_group', 're_group_none', 'emptyset', 'rangeset', 'setadd', 'rev'):
+            reg(getattr(api, nm_), names_[nm_].fn)
         reg(api.implies, lambda a, k, n, f: self.lor(self.lnot(self.truth(a[0])), self.truth(a[1])))
 
     # ------------------------------------------------------------------ builtins
@@ -73,7 +80,15 @@ class MethodMixin:
         if isinstance(v, VBox):
             if v.kind in ('list', 'deque'):
                 return z3.Length(v.term)
-            raise Unsupported('len of set/dict box')
+            if v.kind == 'set':
+                if v.term is None:
+                    return 0
+                self.assumptions.add('len(set) is an uninterpreted non-negative function of the set (cardinality is not modelled)')
+                c = self.ufun('py_card_' + ''.join(ch if ch.isalnum() else '_' for ch in str(v.term.sort())), v.term.sort(), INT)(v.term)
+                if not self.cur_pure():
+                    self.path.assume(c >= 0)
+                return c
+            raise Unsupported('len of dict box')
         if z3.is_expr(v):
             return z3.Length(v)
         if isinstance(v, VStruct):
@@ -209,7 +224,10 @@ class MethodMixin:
 
     def b_set(self, a, k, n, f):
         if not a:
-            return PySet()
+            return VBox('set', None)          # empty set of a not yet known element sort
+        if isinstance(a[0], SymRange):
+            x = z3.Int('rng!x')
+            return VBox('set', z3.Lambda([x], z3.And(x >= a[0].lo, x < a[0].hi)), api.Int)
         items = self.concrete_iter(a[0], n)
         if not any(is_sym(x) for x in items):
             return set(items)
@@ -253,7 +271,9 @@ class MethodMixin:
     def b_range(self, a, k, n, f):
         if not any(is_sym(x) for x in a):
             return range(*a)
-        raise Unsupported('range with symbolic bounds outside an invariant loop')
+        if len(a) <= 2:
+            return SymRange(a[0] if len(a) == 2 else 0, a[-1])
+        raise Unsupported('range with symbolic bounds and a step')
 
     def b_hash(self, a, k, n, f):
         v = a[0]
@@ -353,6 +373,10 @@ class MethodMixin:
             if isinstance(ret, api.List):
                 return VBox(ret.kind, r, ret.elem)
             return self.wrap_sort(r, ret)
+        if isinstance(recv, _re.Pattern):
+            return self.m_pattern(recv, name, args, node)
+        if isinstance(recv, VMatch):
+            return self.m_match(recv, name, args, node)
         if isinstance(recv, PyList):
             return self.m_pylist(recv, name, args, kwargs, node)
         if isinstance(recv, PyDict):
@@ -369,6 +393,51 @@ class MethodMixin:
             if name == 'get' and isinstance(recv, dict):
                 raise Unsupported('dict.get with symbolic key')
         raise Unsupported(f'method {name} on {type(recv).__name__}')
+
+    # ------------------------------------------------------------------ regular expressions (abstract matches)
+    def re_syms(self, pat, method):
+        i = rx.ident(pat)
+        f = self.ufun(f'{i}_{method}', STR, z3.BoolSort())
+        self.assumptions.add(f'regex {pat.pattern!r}: match result and group values are abstract functions of the subject (group languages from the sub-patterns); re itself is trusted')
+        return i, f
+
+    def re_group_syms(self, pat, method, k):
+        i = rx.ident(pat)
+        return (self.ufun(f'{i}_{method}_g{k}', STR, STR), self.ufun(f'{i}_{method}_n{k}', STR, z3.BoolSort()))
+
+    def m_pattern(self, pat, name, args, node):
+        if name not in ('match', 'fullmatch', 'search'):
+            raise Unsupported(f'Pattern.{name}')
+        subj = self.unwrap(args[0], node)
+        s = self.zs.lift(subj, STR)
+        i, f = self.re_syms(pat, name)
+        matched = f(s)
+        notes = set()
+        for k, (tree, always) in rx.groups(pat).items():
+            g, n = self.re_group_syms(pat, name, k)
+            if always:
+                self.path.assume(z3.Implies(matched, z3.Not(n(s)))) if not self.cur_pure() else None
+            lang = rx.group_language(pat, k, notes)
+            if lang is not None and not self.cur_pure():
+                self.path.assume(z3.Implies(z3.And(matched, z3.Not(n(s))), z3.InRe(g(s), lang)))
+        self.assumptions.update(notes)
+        return VOpt(z3.Not(matched), VMatch(pat, s, name))
+
+    def m_match(self, m, name, args, node):
+        if name == 'group':
+            k = args[0] if args else 0
+            if is_sym(k):
+                raise Unsupported('group() with a symbolic index')
+            if isinstance(k, str):
+                k = m.pattern.groupindex[k]
+            if k == 0:
+                g, n = self.re_group_syms(m.pattern, m.method, 0)
+                return g(m.subject)
+            if k > m.pattern.groups:
+                raise PyRaise(IndexError, (), node, implicit=True)
+            g, n = self.re_group_syms(m.pattern, m.method, k)
+            return VOpt(n(m.subject), g(m.subject))
+        raise Unsupported(f'Match.{name}')
 
     def m_pylist(self, recv, name, args, kwargs, node):
         it = recv.items
@@ -443,6 +512,18 @@ class MethodMixin:
                 return VOpt(z3.Not(has), val)
             raise Unsupported(f'dict.{name} on a symbolic dict')
         if recv.kind == 'set':
+            if t is None:
+                if name != 'add':
+                    if name in ('discard', 'remove', 'clear'):
+                        return None
+                    if name == 'copy':
+                        return VBox('set', None)
+                    raise Unsupported(f'set.{name} on an untyped empty set')
+                x0 = args[0]
+                srt = x0.sort() if z3.is_expr(x0) else (z3.IntSort() if isinstance(x0, int) and not isinstance(x0, bool) else z3.StringSort() if isinstance(x0, str) else None)
+                if srt is None:
+                    raise Unsupported('set.add of an unmodelled element')
+                t = z3.K(srt, False)
             dom = t.sort().domain()
             if name == 'add':
                 recv.term = z3.Store(t, self.zs.lift(args[0], dom), True)
@@ -564,3 +645,9 @@ class MethodMixin:
 
 class PySet(set):
     pass
+
+
+class SymRange:
+    """range(lo, hi) with symbolic bounds: only usable as the argument of set()"""
+    def __init__(self, lo, hi):
+        self.lo, self.hi = lo, hi
